@@ -1285,7 +1285,15 @@ class Interp(object):
     def assign(self, t, v, frame):
         if isinstance(t, ast.Name):
             if t.id in frame.globals_declared:
-                raise OutsideSubset("assignment to global %s" % t.id)
+                # module-level state: kept per interpreter run (the harness may pre-seed it through
+                # global_overrides, e.g. with an arbitrary symbolic value standing for any history)
+                ov = self.__dict__.setdefault("global_overrides", None)
+                if ov is None:
+                    ov = self.global_overrides = {}
+                if self.merge_depth > 0:
+                    raise NeedFork()         # not part of the merged state
+                ov[(frame.module.name, t.id)] = v
+                return
             # nonlocal handling: python semantics assign locally unless declared
             frame.vars[t.id] = v
         elif isinstance(t, (ast.Tuple, ast.List)):
